@@ -33,11 +33,20 @@ func concCase(c *harness.Case, forProp string) concCfg {
 	case "C02":
 		cfg.readers = 2
 		cfg.futurePct = 2
+		if c.Index%4 == 3 {
+			// a compaction loop that names revisions at or above the newest one handed out, next to slow commits
+			cfg.compactor, cfg.compactAhead = true, true
+			cfg.maxDelayUs = 500
+		}
 	case "C04":
 		cfg.readers = 2
 		cfg.faultPct = 8
 		cfg.futurePct = 4
 		cfg.maxDelayUs = []int{50, 200, 500}[r.Intn(3)]
+		if c.Index%4 == 3 {
+			// clients that keep opening watches from the current revision while the writes are being sequenced
+			cfg.watchers = 2
+		}
 		if c.Index%4 == 1 {
 			// a compaction loop close behind the read revision: concurrent lists must still be exact snapshots (or be refused)
 			cfg.compactor = true
